@@ -27,11 +27,12 @@ ASSUMPTIONS = [
     "each request carries an extra top-level key (rid) the protocol ignores, used to tag exchanges",
 ]
 REQUIRED_LABELS = {t: ["clients>=8", "overlap-in-flight", "request-line>64KiB", "link-faults", "req:advance", "req:sign_auth",
-                       "req:sign_unauth", "req:state", "req:signerHb", "req:getPubKey", "req:uiHb",
+                       "req:sign_unauth", "req:sign_bad", "uiHb-refused-by-the-device", "req:state", "req:signerHb", "req:getPubKey", "req:uiHb",
                        "stop-path:hb-malformed-der", "stop-path:reconnect-into-ui-heartbeat",
                        "slow-client:Ledger", "slow-client:TCP", "slow-client:SGX"]
                    for t in ("quick", "thorough")}
-KINDS = ["sign_unauth", "sign_auth", "advance", "state", "signerHb", "getPubKey", "uiHb"]
+KINDS = ["sign_unauth", "sign_auth", "advance", "state", "signerHb", "getPubKey", "uiHb",
+         "sign_bad"]
 UI_HB = {"ui_hash": b"\x88" * 32, "ui_pubkey": b"\x04" + b"\x66" * 64}
 T = mw.nominal_requests()
 
@@ -60,12 +61,19 @@ def cases(draw, tier):
     long_one = None
     if advs and not faults and draw(st.integers(0, 2)) == 0:
         long_one = draw(st.sampled_from(advs))
+    hb_fault = None
+    if not faults and any("uiHb" in cl["script"] for cl in clients) and \
+            draw(st.integers(0, 1)) == 0:
+        # the UI heartbeat application refuses one heartbeat (a status word at one of its
+        # exchanges): that request fails, the device is back in the signer for everybody else
+        hb_fault = [draw(st.integers(1, 5)), draw(st.sampled_from([0x6A99, 0x6B11, 0x6A01]))]
     return {"clients": clients, "faults": [list(f) for f in faults], "long": long_one,
+            "hb_fault": hb_fault,
             "delays_us": draw(st.lists(st.integers(0, 3000), min_size=1, max_size=8))}
 
 
 def make_request(kind, rid, ci, j, long_one=None):
-    r = copy.deepcopy(T[kind])
+    r = copy.deepcopy(T["sign_auth" if kind == "sign_bad" else kind])
     r["rid"] = rid
     if kind == "sign_unauth":
         r["message"]["hash"] = (bytes([ci, j]) * 16).hex()
@@ -78,6 +86,12 @@ def make_request(kind, rid, ci, j, long_one=None):
         r["keyId"] = refs.ALL_PATHS[(ci + j) % 6]
     elif kind == "sign_auth":
         r["message"]["input"] = ci * 256 + j
+    elif kind == "sign_bad":
+        # an authorized sign request whose transaction is cut short: refused (-102) without a
+        # word to the device - the same text from every client, as a retrying client sends it
+        r = copy.deepcopy(T["sign_auth"])
+        r["rid"] = rid
+        r["message"]["tx"] = mw.NOMINAL_TX[:-10]
     elif kind == "advance":
         # every request has blocks of its own, drawn from a small pool so that one client's
         # block is another client's brother; now and then a long batch (a request line of
@@ -180,6 +194,8 @@ def _run_case(c, accepted):
     adv_mark = len(w.adv_rx)
     for ordinal, kind in c.get("faults", []):
         w.faults[w.nex + ordinal] = kind
+    if c.get("hb_fault"):
+        w.hb_fault = (True, c["hb_fault"][0], c["hb_fault"][1])
     results = {}
     errors = []
     retries = [0]
@@ -268,7 +284,12 @@ def _run_case(c, accepted):
         raise Violation("interleaved-exchanges", "requests %s have APDUs of other requests "
                         "inside their block; run order %s" % (dup[:4], runs[:40]))
     # --- invariant 3: every request's block is in this process's log
-    missing = [rid for rid in results if rid not in set(runs)]
+    missing = [rid for rid in results if rid not in set(runs) and results[rid][0] != "sign_bad"]
+    contacted = [rid for rid in results if rid in set(runs) and results[rid][0] == "sign_bad"]
+    if contacted:
+        raise Violation("exchanges-for-a-refused-request", "requests %s (transaction cut short) "
+                        "have device exchanges; replies %r" % (
+                            contacted[:4], [results[r][2][:80] for r in contacted[:2]]))
     if faulty:
         missing = []      # a request answered -905 during a failed repair sends no APDU
     if missing:
@@ -300,6 +321,7 @@ def _run_case(c, accepted):
             if len(req["blocks"]) > 100:
                 labels.append("request-line>64KiB")
     # --- invariant 4: every client got the reply to its own request
+    hb_refused = []
     for rid, (kind, req, reply, t0, t1) in results.items():
         rep = mw.parse_reply(reply)
         if rep is None:
@@ -308,6 +330,16 @@ def _run_case(c, accepted):
         ci, j = [int(x) for x in rid.split(".")]
         if faulty and rep["errorcode"] == -905:
             labels.append("device-error-reply")
+            continue
+        if kind == "sign_bad":
+            if rep["errorcode"] != -102:
+                raise Violation("reply-of-another-request", "%s: a transaction cut short was "
+                                "answered %r" % (rid, rep))
+            continue
+        if kind == "uiHb" and c.get("hb_fault") and rep["errorcode"] in (-301, -905, -906) and \
+                not hb_refused:
+            hb_refused.append(rid)          # the one heartbeat the device refused
+            labels.append("uiHb-refused-by-the-device")
             continue
         if rep["errorcode"] != 0:
             raise Violation("request-failed", "request %s (%s) -> %r" % (rid, kind, rep))
@@ -558,6 +590,16 @@ def stall_cases(tier, seed):
                      {"offset_ms": 500, "script": ["state"]},
                      {"offset_ms": 900, "script": ["signerHb"]}],
          "delays_us": [600000]},
+        # a UI heartbeat the device refuses, and a refused request repeated, among other
+        # clients' requests (fixed schedules: the generated ones have them by chance)
+        {"clients": [{"offset_ms": 0, "script": ["uiHb", "state"]}] +
+                    [{"offset_ms": 1 + i, "script": ["sign_unauth", "sign_auth", "state"]}
+                     for i in range(4)],
+         "hb_fault": [3, 0x6A99], "delays_us": [2000]},
+        {"clients": [{"offset_ms": 0, "script": ["sign_auth", "sign_bad", "sign_bad", "state"]},
+                     {"offset_ms": 1, "script": ["sign_bad", "getPubKey", "sign_bad"]},
+                     {"offset_ms": 2, "script": ["sign_bad", "sign_bad", "sign_unauth"]}],
+         "delays_us": [500]},
         # a manager that has been running for half a minute, then busy for ten seconds
         {"manager_age_s": 27, "delays_us": [25000],
          "clients": [{"offset_ms": i, "script": ["state", "sign_auth", "state", "signerHb",
